@@ -493,7 +493,9 @@ func (tx *Tx) rotateActiveFile() error {
 		return err
 	}
 
-	if tx.db.opt.EntryIdxMode == HintBPTSparseIdxMode {
+	// a segment without any key/value entry (nothing but records of other data structures, or of
+	// transactions that never committed) has an empty tree: there is no index to persist for it
+	if tx.db.opt.EntryIdxMode == HintBPTSparseIdxMode && tx.db.ActiveBPTreeIdx.root != nil {
 		tx.db.ActiveBPTreeIdx.Filepath = tx.db.getBPTPath(fID)
 		tx.db.ActiveBPTreeIdx.enabledKeyPosMap = true
 		tx.db.ActiveBPTreeIdx.SetKeyPosMap(tx.db.BPTreeKeyEntryPosMap)
@@ -519,7 +521,9 @@ func (tx *Tx) rotateActiveFile() error {
 		}
 
 		tx.db.BPTreeRootIdxes = append(tx.db.BPTreeRootIdxes, BPTreeRootIdx)
+	}
 
+	if tx.db.opt.EntryIdxMode == HintBPTSparseIdxMode {
 		// clear and reset BPTreeKeyEntryPosMap
 		tx.db.BPTreeKeyEntryPosMap = nil
 		tx.db.BPTreeKeyEntryPosMap = make(map[string]int64)
